@@ -182,6 +182,66 @@ Section Denit.
     else {| do_c1 := di_c1 x; do_denit := zero; do_cumdenit := di_cumdenit x |}.
 End Denit.
 
+(* denit.go:60-212 Denitmo (peat soils, first horizon texture 'H'): three 30 cm blocks, each with its own rate;
+   oracles per block: N^2, Ftheta, Ftemp.  Note the code pairs layer 8 with the share of layer 9 and vice versa
+   (layerFraction90[1] = C1[8]/n, [2] = C1[7]/n); the model mirrors that. *)
+Section Denitmo.
+  Context {T : Type} {NT : Num T}.
+  Record denitmo_in := { dm_c1 : list T (* 9 *); dm_nq : list T (* 3 *); dm_fth : list T; dm_fte : list T; dm_cum : T }.
+  Record denitmo_out := { dmo_c1 : list T; dmo_denit : list T (* 3 *); dmo_cum : T }.
+  Definition block_rate (nit nq fth fte : T) : T :=
+    if gtb nit zero then (ofZ 4242 * nq) / (nq + ofZ 74) * fth * fte / ofZ 1000 else zero.
+  Definition denit_layer (c fr d : T) : T :=
+    if gtb fr zero then (let v := c - d * fr in if v <? zero then zero else v) else c.
+  Definition denitmo (x : denitmo_in) : denitmo_out :=
+    let c i := get zero (dm_c1 x) i in
+    let n1 := c 0%nat + c 1%nat + c 2%nat in
+    let n2 := c 3%nat + c 4%nat + c 5%nat in
+    let n3 := c 6%nat + c 7%nat + c 8%nat in
+    let fr (nit : T) (ci : T) := if gtb nit zero then ci / nit else zero in
+    let d1 := block_rate n1 (get zero (dm_nq x) 0) (get zero (dm_fth x) 0) (get zero (dm_fte x) 0) in
+    let d2 := block_rate n2 (get zero (dm_nq x) 1) (get zero (dm_fth x) 1) (get zero (dm_fte x) 1) in
+    let d3 := block_rate n3 (get zero (dm_nq x) 2) (get zero (dm_fth x) 2) (get zero (dm_fte x) 2) in
+    {| dmo_c1 := [denit_layer (c 0%nat) (fr n1 (c 0%nat)) d1; denit_layer (c 1%nat) (fr n1 (c 1%nat)) d1;
+                  denit_layer (c 2%nat) (fr n1 (c 2%nat)) d1;
+                  denit_layer (c 3%nat) (fr n2 (c 3%nat)) d2; denit_layer (c 4%nat) (fr n2 (c 4%nat)) d2;
+                  denit_layer (c 5%nat) (fr n2 (c 5%nat)) d2;
+                  denit_layer (c 6%nat) (fr n3 (c 6%nat)) d3; denit_layer (c 7%nat) (fr n3 (c 8%nat)) d3;
+                  denit_layer (c 8%nat) (fr n3 (c 7%nat)) d3];
+       dmo_denit := [d1; d2; d3];
+       dmo_cum := dm_cum x + d1 + d2 + d3 |}.
+End Denitmo.
+
+(* nitro.go:248-275 tillage mixing: complete mixing of the pools down to round(depth/DZ) layers (type 1 only) *)
+Section Tillage.
+  Context {T : Type} {NT : Num T}.
+  Fixpoint sum_first (m : nat) (s : T) (l : list T) : T :=
+    match m, l with
+    | S k, x :: r => sum_first k (s + x) r
+    | _, _ => s
+    end.
+  Fixpoint set_first (m : nat) (v : T) (l : list T) : list T :=
+    match m, l with
+    | S k, _ :: r => v :: set_first k v r
+    | _, _ => l
+    end.
+  (* returns the mixed pool; [mixtief] = math.Round(EINT/DZ), m = int(mixtief) *)
+  Definition mix_pool (mixtief : T) (m : nat) (pool : list T) : list T :=
+    set_first m (sum_first m zero pool / mixtief) pool.
+  Definition mix_c1 (mixtief : T) (m : nat) (c1 : list T) : list T :=
+    let v := sum_first m zero c1 / mixtief in
+    set_first m (if v <? zero then zero else v) c1.
+  Definition tillage_depth (eint : T) : T := roundv (eint / ten).
+  (* (NFOS, NAOS, MINFOS, MINAOS, C1) after the tillage block *)
+  Definition tillage_mix (eint : T) (tilart : Z) (nfos naos minfos minaos c1 : list T)
+    : list T * list T * list T * list T * list T :=
+    if gtb eint zero && Z.eqb tilart 1 then
+      let mt := tillage_depth eint in
+      let m := Z.to_nat (truncZ mt) in
+      (mix_pool mt m nfos, mix_pool mt m naos, mix_pool mt m minfos, mix_pool mt m minaos, mix_c1 mt m c1)
+    else (nfos, naos, minfos, minaos, c1).
+End Tillage.
+
 Section Mineral.
   Context {T : Type} {NT : Num T}.
 
